@@ -98,15 +98,19 @@ type FuncEffect struct {
 	WritesParam     map[int]*Witness // writes the object the parameter refers to directly
 	WritesParamDeep map[int]*Witness // writes memory reached from the parameter through a load
 	WritesGlobal    map[*ssa.Global]*Witness
-	WritesFree      map[int]*Witness
+	WritesFree      map[int]*Witness // writes the captured variable's own cell (*fv = v)
+	WritesFreeDeep  map[int]*Witness // writes memory reached from the captured variable through a load
 	WritesUnknown   *Witness
 	// roots the results may alias / reach (rFresh collapsed to Site=nil)
 	RetFrom rootSet
+	// the same, per result position (a pointer result does not alias what only the
+	// error result refers to); nil for table-summarised functions
+	RetIdx map[int]rootSet
 	Spawns  *Witness // go statement reachable
 }
 
 func newEffect() *FuncEffect {
-	return &FuncEffect{WritesParam: map[int]*Witness{}, WritesParamDeep: map[int]*Witness{}, WritesGlobal: map[*ssa.Global]*Witness{}, WritesFree: map[int]*Witness{}, RetFrom: rootSet{}}
+	return &FuncEffect{WritesParam: map[int]*Witness{}, WritesParamDeep: map[int]*Witness{}, WritesGlobal: map[*ssa.Global]*Witness{}, WritesFree: map[int]*Witness{}, WritesFreeDeep: map[int]*Witness{}, RetFrom: rootSet{}}
 }
 
 type Effects struct {
@@ -477,6 +481,9 @@ func (st *funcState) compute(v ssa.Value) rootSet {
 	case *ssa.TypeAssert:
 		return st.origins(x.X)
 	case *ssa.Extract:
+		if call, ok := x.Tuple.(*ssa.Call); ok {
+			return st.callResultAt(call, x.Index)
+		}
 		return st.origins(x.Tuple)
 	case *ssa.Lookup:
 		return st.loadFrom(x.X)
@@ -494,7 +501,10 @@ func (st *funcState) compute(v ssa.Value) rootSet {
 	return rootSet{Root{Kind: rUnknown}: true}
 }
 
-func (st *funcState) callResult(c *ssa.Call) rootSet {
+func (st *funcState) callResult(c *ssa.Call) rootSet { return st.callResultAt(c, -1) }
+
+// callResultAt: what result #idx of the call may refer to (idx < 0: any result).
+func (st *funcState) callResultAt(c *ssa.Call, idx int) rootSet {
 	com := c.Common()
 	if b, ok := com.Value.(*ssa.Builtin); ok {
 		switch b.Name() {
@@ -524,7 +534,11 @@ func (st *funcState) callResult(c *ssa.Call) rootSet {
 	args := st.callArgs(c)
 	for _, g := range callees {
 		s := st.e.Summary(g)
-		for r := range s.RetFrom {
+		retFrom := s.RetFrom
+		if idx >= 0 && s.RetIdx != nil {
+			retFrom = s.RetIdx[idx]
+		}
+		for r := range retFrom {
 			switch r.Kind {
 			case rParam:
 				if r.Idx < len(args) {
@@ -660,7 +674,12 @@ func (e *Effects) analyse(f *ssa.Function, first bool) {
 					e.changed = true
 				}
 			case rFreeVar:
-				if sum.WritesFree[r.Idx] == nil {
+				if r.Deep {
+					if sum.WritesFreeDeep[r.Idx] == nil {
+						sum.WritesFreeDeep[r.Idx] = wit
+						e.changed = true
+					}
+				} else if sum.WritesFree[r.Idx] == nil {
 					sum.WritesFree[r.Idx] = wit
 					e.changed = true
 				}
@@ -710,13 +729,26 @@ func (e *Effects) analyse(f *ssa.Function, first bool) {
 		case *ssa.MakeClosure:
 			cl := x.Fn.(*ssa.Function)
 			cs := e.Summary(cl)
+			// *fv = v overwrites the captured cell itself (the binding is its address); only a
+			// write behind a load from the cell reaches what the cell refers to
 			for k, wit := range cs.WritesFree {
 				if k < len(x.Bindings) {
-					wr(st.deep(x.Bindings[k]), &Witness{Pos: wit.Pos, What: wit.What, Chain: append([]string{fname + " (creates closure)"}, wit.Chain...), Loc: wit.Loc})
+					wr(st.origins(x.Bindings[k]), &Witness{Pos: wit.Pos, What: wit.What, Chain: append([]string{fname + " (creates closure)"}, wit.Chain...), Loc: wit.Loc})
+				}
+			}
+			for k, wit := range cs.WritesFreeDeep {
+				if k < len(x.Bindings) {
+					wr(markDeep(st.deep(x.Bindings[k])), &Witness{Pos: wit.Pos, What: wit.What, Chain: append([]string{fname + " (creates closure)"}, wit.Chain...), Loc: wit.Loc})
 				}
 			}
 		case *ssa.Return:
-			for _, rv := range x.Results {
+			if sum.RetIdx == nil {
+				sum.RetIdx = map[int]rootSet{}
+			}
+			for i, rv := range x.Results {
+				if sum.RetIdx[i] == nil {
+					sum.RetIdx[i] = rootSet{}
+				}
 				for r := range st.deep(rv) {
 					rr := r
 					if rr.Kind == rFresh {
@@ -724,6 +756,10 @@ func (e *Effects) analyse(f *ssa.Function, first bool) {
 					}
 					if !sum.RetFrom[rr] {
 						sum.RetFrom[rr] = true
+						e.changed = true
+					}
+					if !sum.RetIdx[i][rr] {
+						sum.RetIdx[i][rr] = true
 						e.changed = true
 					}
 				}
@@ -848,7 +884,12 @@ func (e *Effects) applyCall(st *funcState, sum *FuncEffect, c ssa.CallInstructio
 		if mc, ok := com.Value.(*ssa.MakeClosure); ok {
 			for k, wit := range s.WritesFree {
 				if k < len(mc.Bindings) {
-					wr(st.deep(mc.Bindings[k]), chain(wit))
+					wr(st.origins(mc.Bindings[k]), chain(wit))
+				}
+			}
+			for k, wit := range s.WritesFreeDeep {
+				if k < len(mc.Bindings) {
+					wr(markDeep(st.deep(mc.Bindings[k])), chain(wit))
 				}
 			}
 		}
